@@ -151,3 +151,36 @@ def _snapshot_fn(b):
         import copy
         return lambda us, up, ut: copy.deepcopy(gstate(us, up, ut))
     return b.specfn(gstate)
+
+
+# ---- scopes open at the same time: ending one removes exactly what THAT scope registered (as known to the scenario, not as
+#      recorded by the object), the other scope's units stay usable ---------------------------------------------------------------
+@contract(UE + ".close", ["C09"], name="UnitEnvironment.close[inner-of-two-open-scopes]")
+def _(c):
+    def mk(order):
+        def pre(b):
+            env = _env(b)
+            outer = b.new(UE, b.dict({"x1": unit(b, "x1", definition=b.glob("units/unit_types.py::UnitType")), "x2": unit(b, "x2")}))
+            inner = b.new(UE, b.dict({"y1": unit(b, "y1", definition=b.glob("units/unit_types.py::UnitType")), "y2": unit(b, "y2", prefixes=b.list(["k"]))}))
+            env.update(outer=outer, inner=inner, mine=["y1", "y2"] if order == "inner-first" else ["x1", "x2"], theirs=["x1", "x2"] if order == "inner-first" else ["y1", "y2"])
+            return dict(args=[inner if order == "inner-first" else outer], env=env)
+        return pre
+    c.scenario("inner-closed-first", mk("inner-first"))
+    c.scenario("outer-closed-first", mk("outer-first"))
+    c.ensures("list(us._keys) == [k for k in old(list(us._keys)) if k not in mine]", "exactly-the-units-this-scope-registered-are-removed")
+    c.ensures("all([k in us._keys for k in theirs])", "the-other-scope's-units-stay-registered")
+    c.ensures("list(up._keys) == old(list(up._keys))", "prefix-table-untouched")
+    c.no_raise()
+
+
+@contract(UE + ".__init__", ["C09"], name="UnitEnvironment.__init__[failing-inside-another-scope]")
+def _(c):
+    def pre(b):
+        env = _env(b)
+        outer = b.new(UE, b.dict({"x1": unit(b, "x1"), "x2": unit(b, "x2", definition=b.glob("units/unit_types.py::UnitType"))}))
+        env.update(outer=outer)
+        return dict(args=[b.obj(UE), b.dict({"y1": unit(b, "y1"), "x1": unit(b, "x1b")})], env=env)
+    c.scenario("duplicate-of-the-outer-scope's-symbol", pre)
+    c.raises("True", label="registration-refused")
+    c.on_raise("gstate(us, up, ut) == old(gstate(us, up, ut))", "tables-as-when-the-inner-scope-was-opened")
+    c.on_raise("'x1' in us._keys and 'x2' in us._keys", "outer-scope's-units-stay-registered")
